@@ -32,3 +32,7 @@ chk("C05", "per-transaction write-set monitor on the real block executor (Execut
 chk("C43", "log-vs-bloom monitor on committed blocks + exact bit-for-bit comparison of each completed section index with the per-block blooms, across restarts",
     "4200 (quick) / 8400 (thorough) block solo chains with generated LOG0..LOG4 contracts called with random topics/data (incl. reverting calls); every log in the stored events and every log expected by construction must hit the stored block bloom (address + each topic); at every completed 4096-block section all 2048 decompressed bit vectors must equal the blooms they were built from in both directions, live and after restarts inside and exactly at a section end.",
     "filter start height 0 (solo network); logs = generated contracts + native ONG transfer logs")
+
+chk("C35", "history monitor over the real pool -> proposer selection -> ledger commit pipeline with per-block and per-replacement oracles; race detector on concurrent submitters (thorough)",
+    "60/1500 seeded histories over 4 funded EVM senders drive txnpool/common.TXPool as the pool server does, select block content exactly like solo.makeBlock/vbft.makeProposal (GetTxPool + IncrementValidator.Verify with the validator's block range), really execute and commit the block (EVM nonces really move), then AddBlock/CleanCompletedTransactionList. Every proposed block: no duplicate hash, nothing already on chain, per sender consecutive nonces starting at the ledger account nonce, block accepted by the ledger. Every accepted same-nonce replacement: strictly higher gas price and the replaced tx is never proposed.",
+    "stateful door checks and re-verification of expired entries are mirrored by the harness; the server's actor/worker plumbing is not driven")
